@@ -293,6 +293,7 @@ func runC11(c *Ctx) {
 	c11PingPending(c)
 	c11RetryPingCancel(c)
 	c11SecondConnect(c)
+	c11HandlerBusy(c)
 	if last != nil {
 		c.Sample(map[string]any{"wire": last.TraceStrings()})
 	}
@@ -791,6 +792,77 @@ func c11PingPending(c *Ctx) {
 				vrt.Quiesce()
 				if !pingRet {
 					vrt.Failf("c11/still-blocked:rc-ping:cancel", "Ping on the reconnecting client does not return after its context was cancelled")
+				}
+			},
+			Observe: func() uint64 { return net.TraceHash() },
+		}
+		c.Explore(sc)
+	}
+}
+
+// c11HandlerBusy: the reader goroutine is inside the application's handler (which is blocked, e.g. on
+// a full channel) while the application ends the connection or gives a call up.
+func c11HandlerBusy(c *Ctx) {
+	c.Bound("handler-busy", "BaseClient whose handler is blocked on an inbound QoS 0 message (the reader goroutine sits in it): Disconnect / Ping / Publish QoS1 / Subscribe called with a context that is cancelled 1 s later (Disconnect must return as soon as DISCONNECT is written and the transport closed; the others when their context ends); then a local Close; the handler is released at the end and the reader must exit; P<=1")
+	for _, call := range []string{"disconnect", "ping", "p1", "sub"} {
+		call := call
+		var net *env.Net
+		sc := &vrt.Scenario{
+			Name:  "C11/handler-busy/" + call,
+			Bound: vrt.Budget{P: 1},
+			Cfg:   vrt.Config{Horizon: int64(60 * time.Second)},
+			Body: func() {
+				net = env.NewNet()
+				bg := vctx.Background()
+				s := env.NewScript(net)
+				s.AutoConnAck = true
+				release := make(chan int)
+				inHandler, handlerDone := false, false
+				cli := &mqtt.BaseClient{Transport: s.Conn}
+				cli.Handle(mqtt.HandlerFunc(func(*mqtt.Message) {
+					inHandler = true
+					vrt.Recv(release)
+					handlerDone = true
+				}))
+				if _, err := cli.Connect(bg, "c11"); err != nil {
+					vrt.Failf("harness", "connect: %v", err)
+					return
+				}
+				s.Send(env.EncPublish("t", []byte("x"), 0, 0, false, false))
+				vrt.Settle()
+				if !inHandler {
+					vrt.Failf("harness", "the handler was not entered")
+					return
+				}
+				ctx, cancel := vctx.WithTimeout(bg, time.Second)
+				defer cancel()
+				ret := false
+				var rerr error
+				vrt.Go("caller-"+call, func() {
+					switch call {
+					case "disconnect":
+						rerr = cli.Disconnect(ctx)
+					case "ping":
+						rerr = cli.Ping(ctx)
+					case "p1":
+						rerr = cli.Publish(ctx, &mqtt.Message{Topic: "t", QoS: mqtt.QoS1, Payload: []byte("y")})
+					case "sub":
+						_, rerr = cli.Subscribe(ctx, mqtt.Subscription{Topic: "a", QoS: mqtt.QoS1})
+					}
+					ret = true
+				})
+				vrt.Sleep(int64(2 * time.Second))
+				vrt.Settle()
+				if !ret {
+					vrt.Failf("c11/still-blocked:"+call+":handler-busy:deadline", "%s is still blocked 1 s after its context ended (the reader goroutine is inside the handler)\n wire:\n  %s", call, strings.Join(net.TraceStrings(), "\n  "))
+				} else if call != "disconnect" && !errors.Is(rerr, vctx.DeadlineExceeded) {
+					vrt.Failf("c11/not-context-error:"+call+":handler-busy", "%s ended by its context's deadline returned %v", call, rerr)
+				}
+				cli.Close()
+				vrt.SendTo(release).V(1)
+				vrt.Quiesce()
+				if !handlerDone || !c16DoneClosed(cli) {
+					vrt.Failf("c11/done-not-closed:handler-busy:"+call, "after Close and the handler's return: handler returned=%v, Done() closed=%v", handlerDone, c16DoneClosed(cli))
 				}
 			},
 			Observe: func() uint64 { return net.TraceHash() },
